@@ -110,7 +110,7 @@ type C13Sc struct {
 	Ops     []C13Op
 }
 
-var c13Seqs = []int64{0, 1, 2, 3, 4, 5, 6, -1, math.MinInt64, math.MaxInt64, math.MaxInt64 - 1}
+var c13Seqs = []int64{0, 1, 2, 3, 4, 5, 6, -1, -2, -7, math.MinInt64, math.MinInt64 + 1, math.MaxInt64, math.MaxInt64 - 1}
 
 func genC13Seq(t *rapid.T, label string) int64 {
 	if rapid.IntRange(0, 3).Draw(t, label+".k") == 0 {
@@ -138,6 +138,9 @@ func genC13(t *rapid.T) C13Sc {
 			op.Via = rapid.SampledFrom([]string{"wire", "wire", "wrapper"}).Draw(t, "op.via")
 			op.HasSeq = rapid.Bool().Draw(t, "op.hasseq")
 			op.Seq = genC13Seq(t, "op.seq")
+			// mostly the seq a get names is one below, at, or one above what is stored, wherever that is
+			op.Rel = rapid.IntRange(0, 2).Draw(t, "op.rel") > 0
+			op.Delta = rapid.SampledFrom([]int64{-1, 0, 0, 1}).Draw(t, "op.delta")
 		}
 		sc.Ops = append(sc.Ops, op)
 	}
@@ -305,6 +308,13 @@ func runC13a(sc C13Sc, c *kit.Case) *kit.Violation {
 				}
 			}
 		case "get":
+			if op.Rel && stored != nil {
+				if n := stored.Seq + op.Delta; (op.Delta >= 0) == (n >= stored.Seq) { // no overflow
+					op.Seq = n
+				} else {
+					op.Seq = stored.Seq
+				}
+			}
 			what := fmt.Sprintf("op %d: get via %s (seq arg %v=%d) against stored %s", oi, op.Via, op.HasSeq, op.Seq, describeStored(stored))
 			switch op.Via {
 			case "wrapper":
